@@ -322,6 +322,32 @@ def scope_cases(tier):
                                 items[use_phase].append(use)
                         yield {'order': order, 'act': act, 'items': items,
                                'tag': 'scope/%s/%s/%s' % (def_phase, use_phase, use_kind)}
+    # a phase written in two pieces (one at the start, one at the end of the file): what counts is the order of
+    # the contents of the phase and the execution order of the phases, not where the pieces are
+    for def_phase in ITEM_PHASES:
+        order = [def_phase] + [q for q in EXEC_ORDER if q != def_phase] + [def_phase]
+        for use_phase in EXEC_ORDER:
+            for def_first in (True, False):
+                for use_kind in (['file', 'def'] if use_phase != 'act' else ['act']):
+                    items = {p: [] for p in ITEM_PHASES}
+                    d = _def('string', 'X', S('w'))
+                    act = None
+                    use = None
+                    if use_kind == 'act':
+                        act = _probe('act', [S('a', R('X'))])
+                    elif use_kind == 'file':
+                        use = _show('X')
+                    else:
+                        use = _def('list', 'Y', [S(R('X')), S('t')])
+                    if use_phase == def_phase:
+                        items[def_phase] = [d, use] if def_first else [use, d]
+                    else:
+                        items[def_phase] = [d, filler] if def_first else [filler, d]
+                        if use is not None:
+                            items[use_phase].append(use)
+                    yield {'order': order, 'cuts': {def_phase: [1]}, 'act': act, 'items': items,
+                           'tag': 'split/%s/%s/%s/%s' % (def_phase, use_phase, use_kind,
+                                                         'def-in-first-piece' if def_first else 'def-in-last-piece')}
     # duplicates: same name twice (same or different type), anywhere
     for p1, p2 in itertools.combinations_with_replacement(ITEM_PHASES, 2):
         for t2 in ['string', 'list', 'line-matcher']:
